@@ -790,6 +790,8 @@ func ImportType(memoryGauge common.MemoryGauge, t cadence.Type) interpreter.Stat
 		)
 
 	default:
-		panic(fmt.Sprintf("cannot import type of type %T", t))
+		// The type is provided by the user, e.g. as the type value of an argument.
+		// Types like function types are exportable, but cannot be imported
+		panic(errors.NewDefaultUserError("cannot import type of type %T", t))
 	}
 }
